@@ -89,7 +89,7 @@ SUBTYPE_RANGE = {"c": (-2**7, 2**7), "C": (0, 2**8), "s": (-2**15, 2**15), "S": 
 @register
 class IntegerType(Contract):
     fn = "gfapy/numeric_array.py::NumericArray.integer_type"
-    props = ("C20",)
+    props = ("C20", "C01")
     doc = ("smallest integer subtype that holds [lo, hi]: unsigned (C,S,I) iff lo >= 0, signed (c,s,i) otherwise, the first in that order whose "
            "range (int8..uint32 of the specification) contains both bounds; gfapy.ValueError iff none does")
 
